@@ -32,6 +32,11 @@ def zscale(net) -> float:
         y = rs.admittance_of(rs.deactivate(b))
         if y is not None and y:
             s = max(s, 1 / abs(complex(y)))
+    # zero-impedance branches enter the (un-equilibrated) modified nodal matrix with entries of 1 next to the
+    # admittances in siemens: the library's rounding residue is then absolute on a 1-Ohm scale, however small the
+    # impedances of the remaining branches are (an exactly shorted port came back as 2e-16 Ohm beside a 1.5e-4 Ohm branch)
+    if any(rs.admittance_of(rs.deactivate(b)) is None for b in net['branches']):
+        s = max(s, 1.0)
     return s or 1.0
 
 
